@@ -90,12 +90,19 @@ func (sgi ShardGroupInfo) getShardsAndSeriesKeyForHintQuery(tagsGroup *influx.Po
 	if err := r.UnmarshalShardKeyByTag(ski.ShardKey); err != nil {
 		return sgi.genShardInfosByIndex(aliveShardIdxes), r.IndexKey
 	}
-	if len(ski.ShardKey) > 0 {
-		r.ShardKey = r.ShardKey[len(mst.Name)+1:]
-	}
 	// Force the query to be broadcast
 	if sysconfig.GetEnableForceBroadcastQuery() == sysconfig.OnForceBroadcastQuery {
 		return sgi.genShardInfosByIndex(aliveShardIdxes), r.IndexKey
+	}
+	if ski.Type == RANGE {
+		// rows of a range-sharded measurement are placed by key range (DestShard on the write path), not by hash
+		if shard := sgi.DestShard(string(r.ShardKey)); shard != nil {
+			shards = append(shards, *shard)
+		}
+		return shards, r.IndexKey
+	}
+	if len(ski.ShardKey) > 0 {
+		r.ShardKey = r.ShardKey[len(mst.Name)+1:]
 	}
 	var shardIdxes []int
 	if mst.InitNumOfShards == 0 {
